@@ -133,7 +133,8 @@ def truncate(rng, hdr, pkts):
 
 def stream(rng):
     magic = rng.choice([MAGIC_US, MAGIC_NS])
-    snaplen = rng.choice([65535, 65535, 262144, 1500, 4096])
+    # small snaplens make caplen == snaplen (and min(cap, snaplen) below) ordinary: a capture taken with `-s 60`
+    snaplen = rng.choice([65535, 65535, 262144, 1500, 4096, 60, 64, 100, 14])
     hdr = struct.pack("<IHHiIII", magic, rng.choice([2, 2, 3]), rng.choice([4, 4, 0]), rng.choice([0, 0, -3600]), rng.choice([0, 0, 6]), snaplen, rng.choice([1, 1, 101, 113]))
     n = rng.choice([0, 1, 2, 3, 5, 8, 13, 40])
     pkts, body = [], b""
